@@ -55,6 +55,7 @@ class LineTracer:
         #: of such a function the scheduler is asked to hand over to that thread; the draw is part of the choice trace
         self.targets = targets or {}
         self.target_n = 0
+        self._stalled = set()
 
     def install(self):
         sys.settrace(self.global_trace)
@@ -82,11 +83,28 @@ class LineTracer:
                     raise self.crash_exc("injected at %s:%s:%d" % self.crashed_at)
             if self.targets:
                 tg = self.targets.get(frame.f_code.co_name)
-                if tg is not None:
+                if tg is not None and (len(tg) < 4 or not callable(tg[3]) or tg[3]()):
                     self.target_n += 1
-                    if self.k.ch.draw("target", self.target_n, False, lambda r: r.random() < tg[1]):
+                    if tg[0] == "@stall":
+                        # a targeted slow-down: the thread that runs this function stands still for a while (a loaded
+                        # host) - once per call of the function, at its first line
+                        # once per call of the function: at its first line, or ("any") at a line drawn as it goes
+                        if id(frame) not in self._stalled:
+                            if len(tg) < 4 or tg[3] != "any":
+                                self._stalled.add(id(frame))
+                            ns = self.k.ch.draw("target", self.target_n, 0, lambda r: (
+                                r.randrange(tg[2][0], tg[2][1]) if r.random() < tg[1] else 0))
+                            if ns:
+                                self._stalled.add(id(frame))
+                                self.k.fault("stall")
+                                self.k.probe("targeted_stall")
+                                self.k.block_until(None, self.k.now_ns + ns, why="stall")
+                    elif self.k.ch.draw("target", self.target_n, False, lambda r: r.random() < tg[1]):
                         self.k.force_switch_to = tg[0]
                         self.k.probe("targeted_switch_requested")
+                        if len(tg) > 2 and tg[2] == "once":
+                            # a single hand-over: the thread handed to must not hand straight back at its own lines
+                            self.targets = {k_: v_ for k_, v_ in self.targets.items() if v_ is not tg}
             if self.yield_lines:
                 self.k.yield_point("line")
         return self.local_trace
